@@ -44,6 +44,19 @@ fn strategy() -> BoxedStrategy<Case> {
     .boxed()
 }
 
+/// triples whose SourceMapSource leaves carry maps longer than their text (`gen::overlong`)
+fn strategy_overlong() -> BoxedStrategy<Case> {
+  (strategy(), vec(any::<u16>(), 1..=6))
+    .prop_map(|(mut case, sels)| {
+      let mut next = 0;
+      crate::gen::overlong(&mut case.a, &sels, &mut next);
+      crate::gen::overlong(&mut case.b, &sels, &mut next);
+      crate::gen::overlong(&mut case.c, &sels, &mut next);
+      case
+    })
+    .boxed()
+}
+
 struct View {
   text: String,
   map_attr: [Vec<AttrFull>; 2],
@@ -219,7 +232,10 @@ impl Prop for C13 {
      without a line break and the next tree starts with a mapped chunk; distinct by hash of the case JSON".into()
   }
   fn legs(&self, _tier: Tier) -> Vec<Leg<Case>> {
-    vec![Leg { name: "triples", source: Cases::Generated(Box::new(strategy), 80_000, 1_200_000) }]
+    vec![
+      Leg { name: "triples", source: Cases::Generated(Box::new(strategy), 80_000, 1_200_000) },
+      Leg { name: "triples whose SourceMapSource leaves carry maps longer than their text", source: Cases::Generated(Box::new(strategy_overlong), 20_000, 300_000) },
+    ]
   }
   fn stages(&self, ctx: &Ctx) -> Vec<Stage> {
     if ctx.tier == Tier::Thorough {
